@@ -114,11 +114,33 @@ void common(P &p, const KV &kv) {
             p.update_direction_from_prox_step = kv.nat("updprox") != 0;
 }
 
+// A problem that supplies its OWN fused ψ / ∇ψ evaluations and treats the work vectors as what the
+// interface says they are: scratch space (filled with recognisable garbage on return).  A solver that reads
+// ŷ out of `work_m` afterwards is exposed.
+struct PolyProblemS : PolyProblemH {
+    using PolyProblemH::PolyProblemH;
+    real_t eval_ψ_grad_ψ(crvec x, crvec y, crvec Σ, rvec grad_ψ, rvec work_n, rvec work_m) const {
+        const PolyProblemH &base = *this;
+        al::TypeErasedProblem<config_t> te{const_cast<PolyProblemH *>(&base)};
+        vec ŷ(m);
+        real_t ψ = te.eval_ψ(x, y, Σ, ŷ);
+        te.eval_grad_L(x, ŷ, grad_ψ, work_n);
+        work_m.setConstant(real_t(777));
+        work_n.setConstant(real_t(-555));
+        return ψ;
+    }
+    void eval_grad_ψ(crvec x, crvec y, crvec Σ, rvec grad_ψ, rvec work_n, rvec work_m) const {
+        (void)eval_ψ_grad_ψ(x, y, Σ, grad_ψ, work_n, work_m);
+    }
+};
+
 template <class Inner>
 std::string run_stack(const KV &kv, Inner &&inner) {
     using InnerT = std::remove_cvref_t<Inner>;
     PolyProblemH poly{kv};
-    al::TypeErasedProblem<config_t> te{&poly};
+    PolyProblemS polys{kv};
+    al::TypeErasedProblem<config_t> te = kv.nat("wmscratch", 0) != 0 ? al::TypeErasedProblem<config_t>{&polys}
+                                                                     : al::TypeErasedProblem<config_t>{&poly};
     vec x = kv.vecv("x0"), y = kv.vecv("y0");
     std::string out;
     if (kv.str("mode", "alm") == "alm") {
